@@ -12,6 +12,12 @@ from .c01 import each, _single_return
 from .c08 import _find_transpose, _setname_map
 
 FLOOR = 21
+ANCHORS = [
+    'field.Field.to_vtk',
+    'io.vtk._FieldIO_VTK._to_vtk',
+    'io.vtk._FieldIO_VTK._from_vtk',
+    'io.vtk._FieldIO_VTK._from_vtk_legacy',
+]   # functions whose code the property is anchored in (mutation analysis, evidence)
 VTK = "io.vtk._FieldIO_VTK."
 
 
